@@ -307,6 +307,17 @@ def run(run, tier, seed, replay=None):
                 found |= run.violation("limit-boundary", dict(data, code=code, count=k, expected_count=n - L))
     run.count("counters: body lines 22..31 x 9 shapes (incl. chains of nested brace-less structures) x 3 positions; functions 2..11 x 3 forms; parameters 1..10 x 7 forms (void pointer first/last, static, prototype); variables 2..11 x 3 forms",
               len(cc), len(cc))
+    # ------------------------------------------------------------- scope-trace model (25 lines, depth) vs implementation
+    sstats = {}
+    if replay is None and b.make_ok:
+        import random as _random
+        import family
+        import scopecorr
+        rnd = _random.Random(seed)
+        progs = [(c[2], c[3]) for c in count_cases() if c[0] == "lines"] + [family.program(rnd) for _ in range(60 if tier == "quick" else 600)]
+        progs += scopecorr.variants(progs[::5], rnd)
+        sfound, sstats = scopecorr.check(run, b, progs)
+        found |= sfound
     if wc:
         run.sample({"context": wc[len(wc) // 2][0], "width": wc[len(wc) // 2][4], "line": wc[len(wc) // 2][2].split("\n")[wc[len(wc) // 2][3] - 1]})
     if cc:
@@ -323,5 +334,6 @@ def run(run, tier, seed, replay=None):
                       "`reported <-> n > L` is evaluated on the exact line / function; the width specification (extracted line_width), the "
                       "CheckLineLen model and the CheckCommentLineLen model are compared with the implementation on every file; "
                       "non-trivial = every case (each sits within 6 of a limit)",
-                      extra={"exhaustive": replay is None},
-                      assumptions=["the counters behind lines/functions/parameters/variables are searched, not modelled"])
+                      extra={"exhaustive": replay is None, "scope_trace_correspondence": sstats},
+                      assumptions=["the counters behind functions/parameters/variables are searched, not modelled; the line counter is "
+                                   "modelled (Model/ScopeTrace.v over Gen/ScopeOps.v) and compared with the implementation after every statement"])
